@@ -5,7 +5,7 @@ Prototype.  Typed translation: every IR type gets a C typedef; SSA values become
 locals; integers are unsigned fixed-width (wrap-around semantics, signed ops through
 casts); phi nodes are parallel copies on edges.
 """
-import re, sys, struct, collections, json
+import re, sys, struct, collections, json, os
 
 # ----------------------------------------------------------------------------- lexer
 TOK = re.compile(r'''
@@ -603,6 +603,34 @@ class Emitter:
         else:
             raise KeyError('unknown global ' + nm)
 
+    # ---- virtual dispatch: candidates of vtable slot k = k-th entry after the address point of every vtable in the module
+    def vslot_candidates(self, k):
+        if not hasattr(self, '_vslots'):
+            self._vslots = {}
+            for g, gd in self.m.globals.items():
+                if not g.startswith('_ZTV') or gd.get('init') is None: continue
+                init = gd['init']
+                if init[0] != 'agg': continue
+                for et, ev in init[1]:                  # one array per (sub)vtable
+                    if ev[0] != 'agg': continue
+                    ents = ev[1]
+                    # vtables of abstract classes are only installed while a base sub-object is being
+                    # constructed/destroyed; a dispatch that lands there fails the model assertion below
+                    def tgt(vv):
+                        while vv[0] == 'ccast': vv = vv[3]
+                        return vv[1] if vv[0] == 'global' else None
+                    if any(tgt(vv) == '__cxa_pure_virtual' for tt, vv in ents): continue
+                    # address point: first entry after the (offset-to-top, typeinfo) pair; for the primary vtable index 2
+                    for idx, (tt, vv) in enumerate(ents):
+                        v = vv
+                        while v[0] == 'ccast': v = v[3]
+                        if v[0] == 'global' and idx >= 2:
+                            nm = self.unalias(v[1])
+                            if nm in self.m.funcs or nm in self.m.decls:
+                                self._vslots.setdefault(idx - 2, [])
+                                if nm not in self._vslots[idx - 2]: self._vslots[idx - 2].append(nm)
+        return self._vslots.get(k, [])
+
     # ---- driver
     def run(self, entries):
         for e in entries: self.ref_global(e)
@@ -760,7 +788,24 @@ class FuncEmitter:
                     tt = x[5]
                     if tt[0] == 'ptr' and tt[1] != ('int', 8) and tt[1][0] not in ('func', 'opaque') and not allocs[x[4][1]]:
                         allocs[x[4][1]].add(tt[1])      # first bitcast = static type of the new-expression
+        # second chance: `store i8* %r, i8** (bitcast T** %field to i8**)` -- instcombine's spelling of `field = new T[n]`
+        bc = {}
+        for b, pl in parsed.items():
+            for x in pl:
+                if x[0] == 'cast' and x[2] == 'bitcast' and x[1] is not None: bc[x[1]] = (x[3], x[5])
+        for b, pl in parsed.items():
+            for x in pl:
+                if x[0] == 'store' and x[2][0] == 'local' and x[2][1] in allocs and not allocs[x[2][1]] and x[4][0] == 'local' and x[4][1] in bc:
+                    ft, tt = bc[x[4][1]]
+                    if tt == ('ptr', ('ptr', ('int', 8))) and ft[0] == 'ptr' and ft[1][0] == 'ptr':
+                        et = ft[1][1]
+                        if et != ('int', 8) and et[0] not in ('func', 'opaque', 'void'):
+                            allocs[x[2][1]].add(et)
         self.alloc_hint = {k: next(iter(v)) for k, v in allocs.items() if len(v) == 1}
+        self.defs = {}
+        for b, pl in parsed.items():
+            for x in pl:
+                if x[0] in ('load', 'gep', 'cast', 'phi', 'select') and x[1] is not None: self.defs[x[1]] = x
         self.castdef = {}
         for b, pl in parsed.items():
             for x in pl:
@@ -1036,6 +1081,11 @@ class FuncEmitter:
             if nm in ('_Znwm', '_Znam', 'malloc') and res is not None:
                 self.decl(res, rt)
                 return pre + ['%s = %s(%s);' % (self.lname(res), em.newfn(('int', 8)), argv[0])] + tail
+            if nm == '_ZNSi5tellgEv' and res is not None:
+                # std::istream::tellg returns fpos {off, state} in registers: lowered to the stream model's cursor
+                self.decl(res, rt)
+                em.ext_funcs.setdefault('verif_tellg', (('int', 64), [('ptr', ('int', 8))], False))
+                return pre + ['%s.f0 = verif_tellg((uint8_t*)%s); %s.f1 = 0;' % (self.lname(res), argv[0], self.lname(res))] + tail
             em.ref_global(nm)
             target = ('ir2c_' + nm) if nm in LIBC else san(nm)
             # argument casts to the callee's declared parameter types (linked modules may disagree on struct names)
@@ -1051,6 +1101,35 @@ class FuncEmitter:
             is_ext = False
             ft = ('func', rt, tuple(a[0] for a in args), False) if fty is None else fty
             target = '((%s)%s)' % (em.fnty(ft), V(('ptr', ft), callee))
+            slot = self.vslot_of(callee)
+            if slot is not None and not os.environ.get('IR2C_NO_DEVIRT'):
+                cands = []
+                for nm in em.vslot_candidates(slot):
+                    if nm in em.m.funcs: sig = (em.m.funcs[nm].ret, [t for t, _, _ in em.m.funcs[nm].params])
+                    else: sig = (em.m.decls[nm][0], em.m.decls[nm][1])
+                    if len(sig[1]) != len(args) or (sig[0] != rt and not (sig[0][0] == 'ptr' and rt[0] == 'ptr')): continue
+                    if any(a != b[0] and not (a[0] == 'ptr' and b[0][0] == 'ptr') for a, b in list(zip(sig[1], args))[1:]): continue
+                    cands.append((nm, sig))
+                if cands:
+                    fv = 'vf%d_' % len(self.decls)
+                    self.decls[fv] = em.fnty(ft)
+                    out = pre + ['%s = %s;' % (fv, target)]
+                    if res is not None and rt[0] != 'void': self.decl(res, rt)
+                    chain = []
+                    for nm, sig in cands:
+                        em.ref_global(nm)
+                        ext = not (nm in em.m.funcs and nm not in em.stubs)
+                        av = []
+                        for i, a in enumerate(argv):
+                            if args[i][0][0] == 'ptr': av.append('((%s)%s)' % ('uint8_t*' if ext else em.cty(sig[1][i]), a))
+                            else: av.append(a)
+                        call = '%s(%s)' % (san(nm), ', '.join(av))
+                        if res is not None and rt[0] != 'void':
+                            call = '%s = %s%s' % (self.lname(res), '(%s)' % em.cty(rt) if rt[0] == 'ptr' else '', call)
+                        chain.append('if (%s == (%s)&%s) { %s; }' % (fv, em.fnty(ft), san(nm), call))
+                    chain.append('{ __CPROVER_assert(0, "VERIF model: virtual call target outside the module\'s vtables"); __CPROVER_assume(0); }')
+                    out.append(' else '.join(chain))
+                    return out + tail
         call = '%s(%s)' % (target, ', '.join(argv))
         if callee[0] == 'global' and rt[0] == 'ptr' and is_ext:
             call = '((%s)%s)' % (em.cty(rt), call)
@@ -1058,6 +1137,27 @@ class FuncEmitter:
             self.decl(res, rt)
             return pre + ['%s = %s;' % (self.lname(res), call)] + tail
         return pre + [call + ';'] + tail
+
+    def vslot_of(self, callee):
+        """k if the callee value is `load (gep (load vptr), k)` (k = 0 without gep), else None"""
+        if callee[0] != 'local': return None
+        d = self.defs.get(callee[1])
+        if not d or d[0] != 'load': return None
+        pv = d[4]
+        if pv[0] != 'local': return None
+        k = 0
+        pd = self.defs.get(pv[1])
+        if pd and pd[0] == 'gep':
+            idx = pd[5]
+            if len(idx) != 1 or idx[0][1][0] != 'int': return None
+            k = idx[0][1][1]
+            base = pd[4]
+            if base[0] != 'local': return None
+            pd = self.defs.get(base[1])
+        if not pd or pd[0] != 'load': return None
+        t = pd[2]                     # loaded type must be pointer to pointer to function
+        if t[0] == 'ptr' and t[1][0] == 'ptr' and t[1][1][0] == 'func': return k
+        return None
 
     def intrinsic(self, nm, res, rt, args, a):
         em = self.em
@@ -1079,6 +1179,20 @@ class FuncEmitter:
                 if t[0] == 'ptr' and t[1][0] in ('int', 'ptr', 'double', 'float') and t[1] != ('int', 8): return t[1]
                 return None
             e0 = elem(ot0[0]); e1 = elem(ot1[0]) if ot1 else None
+            m = re.fullmatch(r'\(\(uint64_t\)(\d+)ull\)', a[2])
+            if m and 0 < int(m.group(1)) <= 256:
+                # constant size: one struct assignment of a byte array, no loop
+                n = int(m.group(1))
+                bt = em.cty(('array', n, ('int', 8)))
+                if kind == 'memset':
+                    mz = re.fullmatch(r'\(\(uint8_t\)0ull\)', a[1])
+                    if mz: return '*(%s*)%s = (%s){{0}};' % (bt, a[0], bt)
+                else:
+                    return '{ %s t_ = *(%s*)%s; *(%s*)%s = t_; }' % (bt, bt, a[1], bt, a[0])
+            if m and int(m.group(1)) == 0: return None
+            # a typed array copied from/to a raw i8* view of another array of the same element type
+            if kind != 'memset' and e0 is not None and e1 is None and ot1[0] == ('ptr', ('int', 8)): e1 = e0; ot1 = (('ptr', e0), ('ccast', 'bitcast', ot1[0], ot1[1], ('ptr', e0)))
+            elif kind != 'memset' and e1 is not None and e0 is None and ot0[0] == ('ptr', ('int', 8)): e0 = e1; ot0 = (('ptr', e1), ('ccast', 'bitcast', ot0[0], ot0[1], ('ptr', e1)))
             if kind != 'memset' and e0 is not None and e0 == e1:
                 ct = em.cty(e0)
                 return 'IR2C_%s(%s, %s, %s, %s);' % ('COPY' if kind == 'memcpy' else 'MOVE', ct, em.val(ot0[0], ot0[1], self), em.val(ot1[0], ot1[1], self), a[2])
@@ -1098,7 +1212,10 @@ class FuncEmitter:
                 else:
                     return '{ %s t_ = *(%s*)%s; *(%s*)%s = t_; }' % (bt, bt, a[1], bt, a[0])
             if m and int(m.group(1)) == 0: return None
-            return 'ir2c_%s(%s, %s, %s);' % (kind, a[0], a[1], a[2])
+            # inline byte loop: every call site owns its loop, so --unwindset can bound it per calling function
+            if kind == 'memcpy': return 'IR2C_COPY(uint8_t, %s, %s, %s);' % (a[0], a[1], a[2])
+            if kind == 'memmove': return 'IR2C_MOVE(uint8_t, %s, %s, %s);' % (a[0], a[1], a[2])
+            return 'IR2C_FILL(uint8_t, %s, %s, %s);' % (a[0], a[1], a[2])
         if nm.startswith('llvm.trap') or nm.startswith('llvm.debugtrap'): return ['__CPROVER_assert(0, "llvm.trap");', '__CPROVER_assume(0);']
         t = args[0][0] if args else None
         if nm.startswith('llvm.umax.'): return '%s = %s > %s ? %s : %s;' % (r, a[0], a[1], a[0], a[1])
